@@ -77,6 +77,20 @@ def table_mutations(P: Project, owner: str, names: Set[str]) -> List[Tuple[str, 
                     t = table_of(x.value, {})
                     if t is not None and x.targets[0].id not in direct:
                         aliases[x.targets[0].id] = t
+                if isinstance(x, ast.AnnAssign) and isinstance(x.target, ast.Name) and x.value is not None:
+                    t = table_of(x.value, {})
+                    if t is not None and x.target.id not in direct:
+                        aliases[x.target.id] = t  # (`permanent: AbstractSet[int] = NON_RETRYABLE_ERRORS`)
+            # a parameter whose default *is* the table (`def f(code, permanent=NON_RETRYABLE_ERRORS)`): without the argument the
+            # parameter is one more name for the module-level object, and `permanent |= extra` changes it for the whole process
+            if isinstance(node, (ast.FunctionDef, ast.AsyncFunctionDef)):
+                a_ = node.args
+                pos_ = a_.posonlyargs + a_.args
+                for p_, d_ in list(zip(pos_[len(pos_) - len(a_.defaults):], a_.defaults)) + [(p_, d_) for p_, d_ in zip(a_.kwonlyargs, a_.kw_defaults) if d_ is not None]:
+                    t = table_of(d_, {})
+                    if t is not None:
+                        aliases[p_.arg] = t
+                        shadowed.discard(p_.arg)
             globals_ = {n for x in body_nodes if isinstance(x, ast.Global) for n in x.names}
             for x in body_nodes:
                 t = None
